@@ -589,17 +589,21 @@ class Ctx:
 
 
 def load_known():
-    p = os.path.join(ROOT, "known_findings.json")
     kf = {"findings": [], "fixed": []}
-    if os.path.exists(p):
-        kf = json.load(open(p))
-    d = os.path.join(ROOT, "known_findings.d")   # per-property staging files, merged by the integrator
+    seen = set()
+    p = os.path.join(ROOT, "known_findings.json")
+    srcs = [p] if os.path.exists(p) else []
+    d = os.path.join(ROOT, "known_findings.d")   # per-property source files (merged into known_findings.json by tools/sync_known.py)
     if os.path.isdir(d):
-        for f in sorted(os.listdir(d)):
-            if f.endswith(".json"):
-                x = json.load(open(os.path.join(d, f)))
-                kf["findings"] += x.get("findings", [])
-                kf["fixed"] += x.get("fixed", [])
+        srcs += [os.path.join(d, f) for f in sorted(os.listdir(d)) if f.endswith(".json")]
+    for f in srcs:
+        x = json.load(open(f))
+        for e in x.get("findings", []):
+            k = (e.get("property"), e.get("key"))
+            if k not in seen:
+                seen.add(k)
+                kf["findings"].append(e)
+        kf["fixed"] += x.get("fixed", [])
     return kf
 
 
